@@ -27,6 +27,7 @@ RULE = (
     "or by the sort / deduplication right below it), since those rows are cached on the node by the first execute(). "
     "  Between the passes and the second execute() an iterator over the result is abandoned after 0-5 rows (a consumer that stops early); the full pass that follows must return the same rows and start at most one iteration per lazy occurrence. "
     "  In 30 % of the cases one evaluation is made to FAIL (a leaf stops delivering rows at a random position) - either before everything else or at the end; all evaluations after it must behave and yield exactly as if it had not happened. "
+    "  Keyed leaves may hold a counting RowMapping payload; for a leaf directly below a deduplication only the rows are asserted. "
 )
 ASSUMPTIONS = [
     "only iteration starts observable through the leaf payloads are judged (the engine's internal iterables are not hooked)",
